@@ -46,6 +46,7 @@ from .http_exceptions import (
     BadStatusLine,
     ContentEncodingError,
     ContentLengthError,
+    HttpProcessingError,
     InvalidHeader,
     InvalidURLError,
     LineTooLong,
@@ -562,8 +563,11 @@ class HttpParser(abc.ABC, Generic[_MsgT]):
 
                     payload_state = PayloadState.PAYLOAD_COMPLETE
                     data = b""
-                    if isinstance(
-                        underlying_exc, (InvalidHeader, TransferEncodingError)
+                    # Framing errors make the rest of the stream unparsable, so
+                    # they must reach the caller; errors in the content itself
+                    # (bad compression, short body) are only set on the payload.
+                    if isinstance(underlying_exc, HttpProcessingError) and not isinstance(
+                        underlying_exc, (ContentEncodingError, ContentLengthError)
                     ):
                         raise
 
